@@ -34,6 +34,7 @@ import (
 	"fmt"
 	"net/netip"
 	"sort"
+	"strconv"
 	"strings"
 )
 
@@ -104,17 +105,21 @@ func (c *cand) key(now int64) (k string) {
 		keys = append(keys, k)
 	}
 	sort.Strings(keys)
-	sb := &strings.Builder{}
+	b := make([]byte, 0, 128)
 	for _, k := range keys {
 		s := c.subs[k]
-		fmt.Fprintf(sb, "%s h=%d [", k, s.hits)
+		b = append(b, k...)
+		b = append(b, " h="...)
+		b = strconv.AppendInt(b, int64(s.hits), 10)
+		b = append(b, " ["...)
 		for _, t := range s.w.Log {
-			fmt.Fprintf(sb, "%d ", t-now)
+			b = strconv.AppendInt(b, t-now, 10)
+			b = append(b, ' ')
 		}
-		sb.WriteString("];")
+		b = append(b, "];"...)
 	}
 
-	return sb.String()
+	return string(b)
 }
 
 // Verdict is the set of outcomes the statement admits for a query.
@@ -142,6 +147,7 @@ type Model struct {
 	Cfg   Config
 	cands []*cand
 	pend  *pending
+	keys  map[netip.Addr]string
 }
 
 // New returns a new model.
@@ -156,6 +162,9 @@ func (m *Model) SubnetKey(ip netip.Addr) (key string, n int, ivl int64) {
 	if ip.Is4() {
 		bits, n, ivl = m.Cfg.Len4, m.Cfg.N4, m.Cfg.Ivl4
 	}
+	if key, ok := m.keys[ip]; ok {
+		return key, n, ivl
+	}
 	raw := ip.AsSlice()
 	for i := range raw {
 		keep := bits - 8*i
@@ -168,8 +177,13 @@ func (m *Model) SubnetKey(ip netip.Addr) (key string, n int, ivl int64) {
 		}
 	}
 	masked, _ := netip.AddrFromSlice(raw)
+	key = fmt.Sprintf("%s/%d", masked, bits)
+	if m.keys == nil {
+		m.keys = map[netip.Addr]string{}
+	}
+	m.keys[ip] = key
 
-	return fmt.Sprintf("%s/%d", masked, bits), n, ivl
+	return key, n, ivl
 }
 
 func (m *Model) predict(c *cand, p *pending) (drop bool, why string) {
@@ -292,6 +306,9 @@ func (m *Model) Observe(dropped bool, respSize int) {
 }
 
 func dedupe(cs []*cand, now int64) (out []*cand) {
+	if len(cs) <= 1 {
+		return cs
+	}
 	seen := map[string]struct{}{}
 	for _, c := range cs {
 		k := c.key(now)
